@@ -900,3 +900,71 @@ package cose
 //@         && result == verifier_verify(verifier, old(tbsFor(true, parent, byte1(64), external)), old(bytes(signature)))
 //@   ensures refuse [C10]: !isParent(parent) ==> result != nil && vepoch() == old(vepoch())
 //@   modifies frame [C18]: nothing
+
+// ===================================================================
+// hash_envelope.go  (C12)
+// ===================================================================
+
+//@ spec hashLenOK(alg Algorithm, n Int) Bool = hashid(alg) == 0 || hash_size(hashid(alg)) == n
+// the placement / type rules of the hash-envelope draft for the two buckets
+//@ spec envProtRule(l Int, v any) Bool = l != 3 && (l == 258 ==> v is Algorithm || canIntV(v)) && (l == 259 ==> canUintV(v) || v is string) && (l == 260 ==> v is string)
+//@ spec envUnprotRule(l Int) Bool = l != 3 && l != 258 && l != 259 && l != 260
+//@ spec EnvRules(p ProtectedHeader, u UnprotectedHeader) Bool = has(asmap(p), 258)
+//@       && (forall k any :: k in asmap(p) ==> labelOK(k) && (isIntKey(k) ==> envProtRule(intOf(k), asmap(p)[k])))
+//@       && (forall k any :: k in asmap(u) ==> labelOK(k) && (isIntKey(k) ==> envUnprotRule(intOf(k))))
+
+//@ func validateHash
+//@   ensures iff [C12]: result == nil <==> hashLenOK(alg, len(value))
+//@   modifies frame [C18]: nothing
+
+//@ func (ProtectedHeader).PayloadHashAlgorithm
+//@   ensures absent [C12]: !has(asmap(h), 258) ==> err == ErrAlgorithmNotFound && result == 0
+//@   ensures present [C12]: has(asmap(h), 258) ==> exists k any :: k in asmap(h) && isIntKey(k) && intOf(k) == 258
+//@      && (algIsInt(asmap(h)[k]) ==> err == nil && result == algInt(asmap(h)[k]))
+//@      && (!algIsInt(asmap(h)[k]) ==> err == ErrInvalidAlgorithm)
+//@   modifies frame [C18]: nothing
+
+//@ func setHashEnvelopeProtectedHeader
+//@   requires nonnil: payload != nil
+//@   ensures fresh_map [C12, C18]: result != nil && fresh(result)
+//@   ensures dom [C12]: forall k any :: (k in asmap(result)) <==> (k in asmap(base) || k == int64(258) || (k == int64(259) && payload.PreimageContentType != nil) || (k == int64(260) && payload.Location != ""))
+//@   ensures vals [C12]: asmap(result)[int64(258)] == Algorithm(payload.HashAlgorithm)
+//@         && (payload.PreimageContentType != nil ==> asmap(result)[int64(259)] == payload.PreimageContentType)
+//@         && (payload.Location != "" ==> asmap(result)[int64(260)] == payload.Location)
+//@         && (forall k any :: k in asmap(base) && k != int64(258) && k != int64(259) && k != int64(260) ==> asmap(result)[k] == asmap(base)[k])
+//@   modifies frame [C12, C18]: nothing
+
+//@ func validateHashEnvelopeHeaders
+//@   requires nonnil: headers != nil
+//@   ensures iff [C12]: result == nil <==> EnvRules(headers.Protected, headers.Unprotected)
+//@   modifies frame [C18]: nothing
+//@   loop 1 invariant seen_ok: forall k any :: k in seen ==> k in ranged && labelOK(k) && (isIntKey(k) ==> envProtRule(intOf(k), ranged[k]))
+//@   loop 1 invariant found_iff: foundPayloadHashAlgorithm <==> has_int(seen, 258)
+//@   loop 2 invariant seen_ok2: forall k any :: k in seen ==> k in ranged && labelOK(k) && (isIntKey(k) ==> envUnprotRule(intOf(k)))
+//@   loop 2 invariant prot_done: has(asmap(headers.Protected), 258) && (forall k any :: k in asmap(headers.Protected) ==> labelOK(k) && (isIntKey(k) ==> envProtRule(intOf(k), asmap(headers.Protected)[k])))
+
+//@ func SignHashEnvelope
+//@   requires signer_nonnil: signer != nil
+//@   ensures err_no_bytes [C12, C20]: err != nil ==> result == nil
+//@   ensures ok [C12, C20]: err == nil ==> len(result) > 0 && fresh(result) && epoch() == old(epoch()) + 1
+//@         && hashLenOK(payload.HashAlgorithm, len(payload.HashValue))
+//@         && (forall k any :: k in asmap(headers.Unprotected) ==> labelOK(k) && (isIntKey(k) ==> envUnprotRule(intOf(k))))
+//@         && (forall k any :: k in asmap(headers.Protected) && isIntKey(k) ==> intOf(k) != 3)
+//@   ensures once [C20]: epoch() == old(epoch()) || epoch() == old(epoch()) + 1
+//@   modifies frame [C12, C18]: nothing
+//@   callsite emitted_headers [C12] Sign1#1: arg2.RawProtected == nil && len(arg2.RawUnprotected) == 0 && arg2.Unprotected == headers.Unprotected
+//@         && EnvRules(arg2.Protected, arg2.Unprotected) && fresh(arg2.Protected)
+//@         && asmap(arg2.Protected)[int64(258)] == Algorithm(payload.HashAlgorithm) && arg3 == payload.HashValue && arg4 == nil
+
+//@ func VerifyHashEnvelope
+//@   requires verifier_nonnil: verifier != nil
+//@   ensures ok [C12]: err == nil ==> result != nil && fresh(result) && len(envelope) >= 2 && bat(bytes(envelope), 0) == 210
+//@         && len(result.Signature) > 0 && result.Payload != nil
+//@         && EnvRules(result.Headers.Protected, result.Headers.Unprotected)
+//@         && vepoch() == old(vepoch()) + 1
+//@         && verifier_verify(verifier, Sig1(ProtBytes(result.Headers), nil, result.Payload), bytes(result.Signature)) == nil
+//@         && asmap(result.Headers.Protected)[int64(258)] is Algorithm
+//@         && hashLenOK(asmap(result.Headers.Protected)[int64(258)].(Algorithm), len(result.Payload))
+//@   ensures err_nil [C12, C20]: err != nil ==> result == nil
+//@   ensures once [C12, C20]: vepoch() == old(vepoch()) || vepoch() == old(vepoch()) + 1
+//@   modifies frame [C18]: nothing
